@@ -173,6 +173,38 @@ def norm_html(h):
     return ' '.join(h.split())
 
 
+def marker_like(w):
+    """a prose word that would be taken for a block marker if a line break put it at the start of a
+    line (over the W4 alphabet): block-quote marker, bullet, thematic break / setext underline, fence"""
+    if w == '':
+        return False
+    if w[0] == '>':
+        return True
+    if w == '-' or w == '*' or w.startswith('```'):
+        return True
+    dash = True
+    star = True
+    for ch in w:
+        if ch != '-':
+            dash = False
+        if ch != '*':
+            star = False
+    return dash or (star and len(w) >= 3)
+
+
+def words_inert(s):
+    """the property's side condition: no word that is NOT already first on its line looks like a block marker"""
+    for line in s.split('\n'):
+        first = True
+        for w in line.split(' '):
+            if w == '':
+                continue
+            if not first and marker_like(w):
+                return False
+            first = False
+    return True
+
+
 @lemma('W4.meaning', 'C10', quick=by('c1', list(W4_ALPH), [{'k': 3}]), thorough=by('c1', list(W4_ALPH), [{'k': 3}, {'k': 4, 'timeout': 3000}]),
        timeout=900, per_path=120,
        covers=['markdown_renderer.py:MarkdownRenderer.render', 'markdown_renderer.py:MarkdownRenderer.fragments_to_lines',
@@ -181,6 +213,7 @@ def norm_html(h):
 def w4_meaning(c1: int, c2: int, c3: int, c4: int, L: int) -> bool:
     """
     pre: all_in(W4_ALPH, P('k'), c1, c2, c3, c4) and fixed(c1, 'c1') and L >= 1
+    pre: words_inert(S(P('k'), c1, c2, c3, c4))
     post: _
     """
     import mistletoe
